@@ -47,7 +47,27 @@ func init() {
 	}
 	intrinsics["(*"+lib+"/datamodel/high/v3.Document).RenderJSON"] = func(fr *frame, args []value) value {
 		if fr.i.stubOutcome("v3.RenderJSON") {
-			return tuple{strBytes(`{"openapi":"3.1.0","rendered":"stub"}`), iface{}}
+			// the stand-in rendering carries the document's own version, info and servers (by their JSON tags);
+			// everything else the real renderer would write is left out
+			i := fr.i
+			out := strBytes(`{"rendered":"stub"`)
+			if dp, ok := args[0].(*value); ok && dp != nil {
+				pkg := i.prog.ImportedPackage(lib + "/datamodel/high/v3")
+				if st, ok := pkg.Type("Document").Type().Underlying().(*types.Struct); ok {
+					doc := (*dp).(structure)
+					for k := 0; k < st.NumFields(); k++ {
+						key := map[string]string{"Version": "openapi", "Info": "info", "Servers": "servers"}[st.Field(k).Name()]
+						if key == "" {
+							continue
+						}
+						out = append(out, strBytes(`,"`+key+`":`)...)
+						i.jsonFr = fr
+						out = i.jsonEncode(out, st.Field(k).Type(), doc[k])
+					}
+				}
+			}
+			out = append(out, uint8('}'))
+			return tuple{out, iface{}}
 		}
 		return tuple{[]value(nil), fr.i.newError(fr, "stub: render failed")}
 	}
@@ -76,6 +96,7 @@ func init() {
 	}
 	intrinsics["encoding/json.MarshalIndent"] = func(fr *frame, args []value) value {
 		it := args[0].(iface)
+		fr.i.jsonFr = fr
 		out := fr.i.jsonEncode(nil, it.t, it.v)
 		return tuple{out, iface{}}
 	}
